@@ -274,3 +274,127 @@ func (e *Env) Shapes(i int) []string {
 	}
 	return out
 }
+
+// ParseTy parses the prefix notation of a Ty from the front of tokens.
+func ParseTy(t []string) (Ty, []string, error) {
+	if len(t) == 0 {
+		return Ty{}, nil, fmt.Errorf("type expected")
+	}
+	switch t[0] {
+	case "bool":
+		return Ty{K: TyBool}, t[1:], nil
+	case "s1", "s2", "s4", "s8":
+		return Ty{K: TyScalar, W: int(t[0][1] - '0')}, t[1:], nil
+	case "f32":
+		return Ty{K: TyF32}, t[1:], nil
+	case "f64":
+		return Ty{K: TyF64}, t[1:], nil
+	case "date":
+		return Ty{K: TyDate}, t[1:], nil
+	case "str":
+		return Ty{K: TyStr}, t[1:], nil
+	case "guid":
+		return Ty{K: TyGuid}, t[1:], nil
+	case "arr":
+		e, rest, err := ParseTy(t[1:])
+		if err != nil {
+			return Ty{}, nil, err
+		}
+		return Ty{K: TyArr, Elem: &e}, rest, nil
+	case "map":
+		k, rest, err := ParseTy(t[1:])
+		if err != nil {
+			return Ty{}, nil, err
+		}
+		e, rest, err := ParseTy(rest)
+		if err != nil {
+			return Ty{}, nil, err
+		}
+		return Ty{K: TyMap, Key: &k, Elem: &e}, rest, nil
+	case "ref":
+		if len(t) < 2 {
+			return Ty{}, nil, fmt.Errorf("ref needs an index")
+		}
+		n, err := strconv.Atoi(t[1])
+		if err != nil || n < 0 {
+			return Ty{}, nil, fmt.Errorf("bad ref %q", t[1])
+		}
+		return Ty{K: TyRef, Ref: n}, t[2:], nil
+	}
+	return Ty{}, nil, fmt.Errorf("unknown type %q", t[0])
+}
+
+// ParseDefLine parses the tokens of a `def` line (including the leading "def") into env.
+func (e *Env) ParseDefLine(t []string) error {
+	if len(t) < 4 {
+		return fmt.Errorf("short def line")
+	}
+	i, err := strconv.Atoi(t[1])
+	if err != nil || i < 0 || i >= len(e.Defs) {
+		return fmt.Errorf("def index out of range")
+	}
+	n, err := strconv.Atoi(t[3])
+	if err != nil || n < 0 {
+		return fmt.Errorf("bad count")
+	}
+	rest := t[4:]
+	d := Def{Name: fmt.Sprintf("def%d", i)}
+	atoi := func() (int, error) {
+		if len(rest) == 0 {
+			return 0, fmt.Errorf("number expected")
+		}
+		v, err := strconv.Atoi(rest[0])
+		rest = rest[1:]
+		return v, err
+	}
+	switch t[2] {
+	case "struct":
+		d.Kind = Struct
+		for j := 0; j < n; j++ {
+			var ty Ty
+			ty, rest, err = ParseTy(rest)
+			if err != nil {
+				return err
+			}
+			d.Fields = append(d.Fields, DefField{Ty: ty})
+		}
+	case "msg":
+		d.Kind = Message
+		for j := 0; j < n; j++ {
+			idx, err := atoi()
+			if err != nil {
+				return err
+			}
+			dep, err := atoi()
+			if err != nil {
+				return err
+			}
+			var ty Ty
+			ty, rest, err = ParseTy(rest)
+			if err != nil {
+				return err
+			}
+			d.Fields = append(d.Fields, DefField{Idx: idx, Deprecated: dep != 0, Ty: ty})
+		}
+	case "union":
+		d.Kind = Union
+		for j := 0; j < n; j++ {
+			disc, err := atoi()
+			if err != nil {
+				return err
+			}
+			ref, err := atoi()
+			if err != nil {
+				return err
+			}
+			d.Branches = append(d.Branches, DefBranch{Disc: disc, Ref: ref})
+		}
+	default:
+		return fmt.Errorf("unknown def kind %q", t[2])
+	}
+	if len(rest) != 0 {
+		return fmt.Errorf("trailing tokens in def line")
+	}
+	e.Defs[i] = d
+	return nil
+}
